@@ -913,9 +913,9 @@ func genC01(c *Ctx) {
 		for _, n := range []int{9999, 10000, 10001, 20000} {
 			tag := fmt.Sprintf("depth %d", n)
 			deep(rep("[", n)+"1"+rep("]", n), tag+" arrays", n == 10000 || n == 10001 || th)
-			if n > 10000 || th {
+			if n >= 10000 || th {
 				// (the reference parser is quadratic on nested objects: ~2.5 s per text of 10000 levels;
-				// in the quick tier the accepted side of the boundary is covered by the mixed nesting)
+				// in the quick tier only the verdict is compared on these)
 				cheapOnly = true
 				deep(rep(`{"":`, n)+"1"+rep("}", n), tag+" objects", n > 10000 || th)
 				cheapOnly = false
